@@ -19,7 +19,7 @@ enum S {
     Let(bool, String, E), Assign(String, E), Aug(String, &'static str, E),
     If(E, Vec<S>, Vec<(E, Vec<S>)>, Option<Vec<S>>),
     While(E, Vec<S>), ForRange(String, E, E, Vec<S>), ForList(String, E, Vec<S>),
-    Append(String, E), Ret(E), Print(E), ExprS(E), Brk, Cont,
+    Append(String, E), Ret(E), Print(E), Print2(E, E), ExprS(E), Brk, Cont,
 }
 
 fn aop(op: &str) -> &'static str { match op { "add" => "+", "sub" => "-", "mul" => "*", "floorDiv" => "//", _ => "%" } }
@@ -64,6 +64,7 @@ fn ssrc(s: &S, ind: usize, py: bool, out: &mut String) {
         S::Append(x, e) => out.push_str(&format!("{p}{x}.append({})\n", esrc(e, py))),
         S::Ret(e) => out.push_str(&format!("{p}return {}\n", esrc(e, py))),
         S::Print(e) => out.push_str(&format!("{p}{}({})\n", if py { "show" } else { "print" }, esrc(e, py))),
+        S::Print2(a, b2) => out.push_str(&format!("{p}{}({}, {})\n", if py { "show2" } else { "print" }, esrc(a, py), esrc(b2, py))),
         S::ExprS(e) => out.push_str(&format!("{p}{}\n", esrc(e, py))),
         S::Brk => out.push_str(&format!("{p}break\n")),
         S::Cont => out.push_str(&format!("{p}continue\n")),
@@ -110,6 +111,7 @@ fn senc(s: &S, o: &mut Vec<String>) {
         S::Append(x, e) => { o.push(format!("p{x}")); eenc(e, o) }
         S::Ret(e) => { o.push("r".into()); eenc(e, o) }
         S::Print(e) => { o.push("o".into()); eenc(e, o) }
+        S::Print2(a, b2) => { o.push("O".into()); eenc(a, o); eenc(b2, o) }
         S::ExprS(e) => { o.push("e".into()); eenc(e, o) }
         S::Brk => o.push("k".into()), S::Cont => o.push("c".into()),
     }
@@ -171,7 +173,7 @@ impl<'a> G<'a> {
             0 => S::Assign("acc".into(), self.int_expr(2)),
             1 => { let op = *self.r.pick(&["add", "sub", "mul", "floorDiv", "mod"]); let rhs = if op == "floorDiv" || op == "mod" { if self.r.chance(4, 5) { E::Int(self.r.range(1, 9)) } else { self.int_atom2() } } else { self.int_expr(1) }; S::Aug("acc".into(), op, rhs) }
             2 => S::Print(self.int_expr(2)),
-            3 => S::Print(self.bool_expr()),
+            3 => if self.r.chance(1, 3) { S::Print2(self.int_expr(1), self.bool_expr()) } else { S::Print(self.bool_expr()) },
             4 => if self.over_ys == 0 { S::Append("ys".into(), self.int_expr(1)) } else { S::Print(E::Len(b(E::Var("ys".into())))) },
             5 => { self.ctr += 1; S::Let(false, format!("t{}", self.ctr), self.int_expr(1)) }
             6 => if self.loop_depth > 0 && self.r.chance(1, 2) { if self.r.chance(1, 2) { S::Brk } else { S::Cont } } else { S::Print(E::Len(b(E::Var("ys".into())))) },
@@ -215,7 +217,7 @@ impl<'a> G<'a> {
 }
 
 const HELPERS_INCAN: &str = "def g(x: int) -> int:\n    print(x)\n    return x + 1\n\ndef h(x: int, y: int) -> int:\n    print(x - y)\n    return x * 2 - y\n\n";
-const HELPERS_PY: &str = "def show(v):\n    if v is True: print('true')\n    elif v is False: print('false')\n    else: print(v)\n\ndef g(x):\n    show(x)\n    return x + 1\n\ndef h(x, y):\n    show(x - y)\n    return x * 2 - y\n\n";
+const HELPERS_PY: &str = "def fmt(v):\n    return 'true' if v is True else 'false' if v is False else str(v)\n\ndef show(v):\n    print(fmt(v))\n\ndef show2(v, w):\n    print(fmt(v) + ' ' + fmt(w))\n\ndef g(x):\n    show(x)\n    return x + 1\n\ndef h(x, y):\n    show(x - y)\n    return x * 2 - y\n\n";
 
 /// (incan source, python source, model encoding of f's body)
 fn program(body0: &[S], args: &[(i64, i64, bool, Vec<i64>)]) -> (String, String, String) {
